@@ -28,6 +28,7 @@ type stats struct {
 	SharedSlice               bool // two callers got the same block slice (memory shared through the cache)
 	FetchAfterFailedSameKey   int  // calls on a key after a failed fetch of that key that reached the node
 	DistinctHeadsSeen         int
+	CrossFilterHits           int // cached reads of a segment whose download was made by a call with ANOTHER data plan (filter)
 }
 
 var (
@@ -234,6 +235,9 @@ func judge(h *history, deadlock string, panics []string) (*finding, stats) {
 			}
 			st.CachedReads++
 			r := &rd{c: c, lo: winOf(c.Inv), hi: winOf(c.Ret)}
+			if r.hi > 0 && okFetch[r.hi-1].Op.Filt != c.Op.Filt {
+				st.CrossFilterHits++
+			}
 			if r.hi == 0 {
 				k := "served-without-fetch"
 				if failedBefore(key, c.Ret) != nil {
